@@ -384,3 +384,33 @@ Proof.
     eexists; eexists; (split; [eassumption|]); intros x Hx; eexists; (split; [apply upd_atom_same; exact Hx|]); simpl; repeat split; auto.
   - rewrite Hx in Heqo0. inversion Heqo0; subst. apply N.eqb_neq. assumption.
 Qed.
+
+(* ---------- "and nothing else": the frame of a whole edit sequence ---------- *)
+Lemma apply_edits_none img es : fold_left (fun acc e => match acc with Some x => apply_edit img x e | None => None end) es None = None.
+Proof. induction es as [|e es IH]; [reflexivity|exact IH]. Qed.
+
+Lemma apply_edits_cons img m e es : apply_edits img m (e :: es) =
+  match apply_edit img m e with Some x => apply_edits img x es | None => None end.
+Proof. unfold apply_edits. cbn [fold_left]. destruct (apply_edit img m e); [reflexivity|apply apply_edits_none]. Qed.
+
+(* an atom that is not the image of a labelled atom is the same after the whole sequence *)
+Theorem apply_edits_frame_atoms img es : forall m m' k, apply_edits img m es = Some m' -> ~ In k img ->
+  nth_error (atoms m') k = nth_error (atoms m) k.
+Proof.
+  induction es as [|e es IH]; intros m m' k H Hk.
+  - inversion H; reflexivity.
+  - rewrite apply_edits_cons in H. destruct (apply_edit img m e) as [x|] eqn:E; [|discriminate].
+    rewrite (IH x m' k H Hk). exact (apply_edit_frame_atoms img m e x k E Hk).
+Qed.
+
+(* a pair of atoms that no bond edit of the rule names keeps its bond through the whole sequence *)
+Theorem apply_edits_frame_bonds img es : forall m m' u v, apply_edits img m es = Some m' ->
+  (forall e i j a b, In e es -> edit_pair e = Some (i, j) -> nth_error img i = Some a -> nth_error img j = Some b -> ~ same_pair u v a b) ->
+  bond_between m' u v = bond_between m u v.
+Proof.
+  induction es as [|e es IH]; intros m m' u v H Hp.
+  - inversion H; reflexivity.
+  - rewrite apply_edits_cons in H. destruct (apply_edit img m e) as [x|] eqn:E; [|discriminate].
+    rewrite (IH x m' u v H); [|intros e' i j a b He'; apply (Hp e' i j a b); right; exact He'].
+    apply (apply_edit_frame_bonds img m e x u v E). intros i j a b. apply (Hp e i j a b). left. reflexivity.
+Qed.
